@@ -10,8 +10,10 @@ for prop in sys.argv[2:]:
     t=time.time()
     try:
         mod.run(ck)
+        from analysis.main import scoped_rules
+        scoped_rules(ck, prop)
     except (AnchorMissing, facts.CheckError, Exception) as e:
         print(prop, cfg, 'EXC', type(e).__name__, str(e)[:300]); continue
-    bad=[i for i in ck.instances if not i['ok']]
+    bad=[i for i in ck.instances if not i['ok'] and not i.get('known')]
     print(prop, cfg, len(ck.instances), 'bad', len(bad), round(time.time()-t,1))
     for i in bad[:6]: print('    ', i['rule'], i['key'][:120], '|', i['what'][:160])
